@@ -1,6 +1,7 @@
 package props
 
 import (
+	"sort"
 	"context"
 	"errors"
 	"fmt"
@@ -247,3 +248,16 @@ func (s *nopScheduler) RunJob(_ context.Context, _ string) error      { return n
 func (s *nopScheduler) JobExists(_ context.Context, _ string) bool    { return false }
 func (s *nopScheduler) RunJobIfExists(_ context.Context, _ string)    {}
 func (s *nopScheduler) ListJobs(_ context.Context) []string           { return s.names }
+
+// keysSorted returns the keys of m in ascending order: oracles iterate maps in a fixed order so that the clause
+// and message they report do not depend on Go's map iteration (a violation must reproduce on replay word for word).
+func keysSorted[K interface {
+	~int | ~int64 | ~uint64 | ~uint8 | ~string
+}, V any](m map[K]V) []K {
+	out := make([]K, 0, len(m))
+	for k := range m {
+		out = append(out, k)
+	}
+	sort.Slice(out, func(i, j int) bool { return out[i] < out[j] })
+	return out
+}
